@@ -107,6 +107,23 @@ Theorem C14_T6_reachable_any : forall k all l e,
     c_ent crt = Some x /\ c_epoch crt = en_epoch x.
 Proof. exact t6_full. Qed.
 
+(* T6, ingress paths: through the HTTP route or the DMQ consumer (which does not authenticate), a single
+   signature is stored only when valid for an existing open, non-certified, non-expired message under the
+   registration set in force; it never touches certificates, artifacts, runtime state or registrations;
+   it is buffered only when no open message exists and it is authenticated (route) or came by DMQ *)
+Theorem C14_stored_signature_valid_any_ingress : forall s g x,
+  s_oms (on_sig s g x) <> s_oms s ->
+  exists d o, s_ed s = Some d /\ ed_comp d = true /\ find_om (s_oms s) x = Some o /\
+              om_cert o = false /\ om_exp o = false /\ sig_valid_for (ed_cur d) g x = true.
+Proof. exact stored_sig_valid. Qed.
+Theorem C14_signature_frame : forall s g x,
+  s_certs (on_sig s g x) = s_certs s /\ s_ents (on_sig s g x) = s_ents s /\
+  s_rt (on_sig s g x) = s_rt s /\ s_regs (on_sig s g x) = s_regs s.
+Proof. exact on_sig_frame. Qed.
+Theorem C14_buffered_only_without_open_message : forall s g x,
+  s_buf (on_sig s g x) <> s_buf s -> find_om (s_oms s) x = None /\ authenticated (s_ed s) g = true.
+Proof. exact buffered_only_without_open_message. Qed.
+
 (* T7: an epoch gap blocks the state machine and no certificate is stored while it is blocked *)
 Theorem C14_T7_gap_blocks : forall k s prev le, chain (s_certs s) ->
   s_rt s = Idle prev -> last_epoch (s_certs s) = Some le -> le + 1 < tp_epoch (s_env s) ->
@@ -140,6 +157,23 @@ Example C14_nonvacuous : no_crash scenario /\
   map c_parent (s_certs (run_st 3 [0;1;2] scenario)) = [None; Some 0%nat; Some 1%nat] /\
   map se_cert (s_ents (run_st 3 [0;1;2] scenario)) = [1%nat; 2%nat].
 Proof. exact scenario_ok. Qed.
+(* signatures of the next epoch sent before the aggregator saw the epoch change are buffered (next-set
+   authentication), handed over when the open message is created and seal it *)
+Example C14_early_next_epoch_signatures :
+  map obs_buf (s_buf (run_st 3 [0;1;2] (scenario ++ [Reg 0; Reg 1; Reg 2; NewEpoch; Sig (sg_early 0) x3; Sig (sg_early 1) x3])))
+    = [OL [ON 0; ON 0]; OL [ON 0; ON 1]] /\
+  map c_ent (s_certs (run_st 3 [0;1;2] scenario_early)) = [None; Some x2; Some xc; Some x3] /\
+  map c_set (s_certs (run_st 3 [0;1;2] scenario_early)) = [[0;1;2]; [0;1;2]; [0;1;2]; [0;1]] /\
+  s_buf (run_st 3 [0;1;2] scenario_early) = [].
+Proof. exact scenario_early_ok. Qed.
+(* unauthenticated garbage from the DMQ is buffered, skipped at the hand-over, changes no certificate;
+   the same signature through the HTTP route is dropped *)
+Example C14_dmq_garbage_harmless :
+  map obs_cert (s_certs (run_st 3 [0;1;2] scenario_dmq)) = map obs_cert (s_certs (run_st 3 [0;1;2] scenario)) /\
+  map obs_buf (s_buf (run_st 3 [0;1;2] scenario_dmq)) = [OL [ON 2; ON 2]] /\
+  s_buf (run_st 3 [0;1;2] (prefix2 ++ [Sig (sg_of xc 2) xc])) <> [] /\
+  s_buf (run_st 3 [0;1;2] (prefix2 ++ [Sig {| sg_party := 2; sg_set := [2]; sg_signed := x2; sg_idxs := [1]; sg_dmq := false |} xc])) = [].
+Proof. exact scenario_dmq_ok. Qed.
 (* T5 needs its hypothesis: a crash between certificate insert and open-message update certifies twice *)
 Example C14_T5_cert_cut_breaks :
   cert_ents (s_certs (run_st 3 [0;1;2] scenario_cut)) = [x2; x2] /\
